@@ -253,4 +253,4 @@ mod tests {
 
 #[cfg(kani)]
 #[path = "/verif/harness/may/sync_sync_flag.rs"]
-mod verif_kani;
+pub(crate) mod verif_kani;
